@@ -12,7 +12,8 @@ Tr == T.traces[tid]
 R == INSTANCE Reducer WITH Cfg <- T.traces[tid].cfg,
                            Dev_MatchDoneWaiters <- T.dev.match_done_waiters,
                            Dev_WaitIndexOneBased <- T.dev.wait_index_one_based,
-                           Dev_NoHandlersUnvalidated <- T.dev.no_handlers_unvalidated
+                           Dev_NoHandlersUnvalidated <- T.dev.no_handlers_unvalidated,
+                           Dev_RepingResolvedWaiters <- FALSE
 
 Init == /\ tid \in 1..Len(T.traces) /\ l = 1 /\ verdict = "ok"
         /\ cur = T.traces[tid].init
